@@ -230,3 +230,9 @@ func runBroadBatches(e *core.Env, rep *core.Report, profile string, n, batchSize
 		}
 	}
 }
+
+var (
+	rePosAny = regexp.MustCompile(`^\S+?\.go:\d+(:\d+)?:\s*`)
+	reDigits = regexp.MustCompile(`\d+`)
+	reIdent  = regexp.MustCompile(`\b(cv|pre|pos|S|D|SN|DN|SM|AX|Conv[A-Z])N\b`)
+)
